@@ -68,6 +68,17 @@ def _pack_res(p):
         return [1, core.classify_exception(e)]
 
 
+def _unpack(cls, octs):
+    """K.unpack from bytes or -- every third input, and half of the inputs of 512 octets or more -- from a bytearray
+    (a receive buffer) that is overwritten after the call: the decoded object must not depend on it any more"""
+    if (len(octs) + sum(octs[:8])) % 3 and not (len(octs) >= 512 and sum(octs[:8]) % 2):
+        return cls.unpack(bytes(octs))
+    buf = bytearray(octs)
+    p = cls.unpack(buf)
+    buf[:] = b"\xa5" * len(buf)
+    return p
+
+
 def _conf_lists(c):
     return [[c.source_entity_id.value, c.source_entity_id.byte_len, c.dest_entity_id.value, c.dest_entity_id.byte_len,
              c.transaction_seq_num.value, c.transaction_seq_num.byte_len],
@@ -75,19 +86,22 @@ def _conf_lists(c):
 
 
 def impl(op, a):
+    if op == 1380:
+        from harness.props import c06h
+        return c06h.impl(op, a)
     if op == 1370:
         p, conf = _pdu(a)
         return _fields(p) + _conf_lists(conf)
     if op == 1371:
         return [list(_pdu(a)[0].pack())]
     if op == 1372:
-        return _fields(NakPdu.unpack(bytes(a[0])))
+        return _fields(_unpack(NakPdu, a[0]))
     if op == 1373:
-        return [list(NakPdu.unpack(bytes(a[0])).pack())]
+        return [list(_unpack(NakPdu, a[0]).pack())]
     if op == 1374:
         p, _ = _pdu(a)
         b = p.pack()
-        p2 = NakPdu.unpack(bytes(b) + bytes(a[4] if len(a) > 4 else []))
+        p2 = _unpack(NakPdu, list(b) + list(a[4] if len(a) > 4 else []))
         return [[int(p2 == p)]] + _fields(p2) + [_pack_res(p2)]
     if op == 1375:
         return [[get_max_seg_reqs_for_max_packet_size_and_pdu_cfg(a[2][0], h5._conf(a[0], a[1]))]]
@@ -208,9 +222,30 @@ def streams(tier, rng):
             cases.append((1370, a))
             if big and n <= lim and large == 1:
                 cases.append((1374, a + [[]]) if crc == 0 else (1371, a))
+            if big and n <= lim and large == 0 and crc == 1:
+                cases.append((1371, a))          # 8190 requests packed (about 30 s in the model)
         a = _rand_pdu(rng, 300, crc=crc, large=large)
         cases.append((1371, a)); cases.append((1374, a + [[]]))
     yield "exh_nak_segment_counts", "exact", cases
+    # 2b. size sweep: every number of segment requests 0..100; then the counts that put the packet length next to
+    #     every multiple of 512 octets up to 8 KiB (32-bit offsets) / 16 KiB (64-bit); thorough: every count up to
+    #     300, every eighth up to 1100.  (The model's pack is quadratic in the count: beyond 100 only pack, not the round trip.)
+    cases = []
+    for n in range(0, 101):
+        if big or n <= 40 or n % 2 == 0:
+            a = _rand_pdu(rng, n)
+            cases.append((1374, a + [[]]))
+    for j in ((2, 3, 4, 8, 16) if not big else range(2, 17)):
+        for n in (64 * j - 3, 64 * j - 2, 64 * j - 1, 64 * j):
+            a = _rand_pdu(rng, n, large=0 if j > 4 else rng.randrange(2))
+            cases.append((1371, a))
+            if j in (2, 4, 8):
+                cases.append((1374, a + [[]]))
+    if big:
+        for n in list(range(101, 301)) + list(range(304, 1101, 8)):
+            a = _rand_pdu(rng, n)
+            cases.append((1374, a + [[]]) if n % 64 == 0 or n <= 300 and n % 8 == 0 else (1371, a))
+    yield "sizes_nak_segment_requests", "exact", cases
     # 3. offsets at and beyond the 32/64-bit range in every position
     cases = []
     vals = [0, 1, 2 ** 31 - 1, 2 ** 31, 2 ** 32 - 1, 2 ** 32, 2 ** 32 + 1, 2 ** 63, 2 ** 64 - 1, 2 ** 64, 2 ** 65, -1, -2 ** 31]
@@ -230,7 +265,7 @@ def streams(tier, rng):
     yield "nak_offset_boundaries", "exact", cases
     # 4. random PDUs: pack, round trip, round trip with suffix (look-alike continuations), decode of pack ++ suffix
     cases = []
-    for _ in range(20000 if big else 2500):
+    for _ in range(20000 if big else 2200):
         a = _rand_pdu(rng)
         w2 = 16 if a[1][1] else 8
         cases.append((1371, a)); cases.append((1374, a + [[]]))
@@ -245,7 +280,7 @@ def streams(tier, rng):
     # 5. targeted malformed: every truncation; substitutions in header / length / directive octets;
     #    length field set to other values (CRC made right for the altered PDU)
     cases = []
-    for _ in range(300 if big else 70):
+    for _ in range(300 if big else 58):
         a = _rand_pdu(rng, rng.choice([0, 1, 2, 3]))
         p = lay(a)
         hl = 4 + 2 * a[0][1] + a[0][5]
@@ -345,7 +380,7 @@ def streams(tier, rng):
     # 9b. C04: CRC-flagged packed PDUs with every single-bit flip and bursts of 2..16 bits at every bit offset
     #     outside the length-determining octets 1..3 and the CRC flag bit
     cases = []
-    for _ in range(40 if big else 6):
+    for _ in range(40 if big else 4):
         a = _rand_pdu(rng, rng.choice([0, 1, 2]), crc=1)
         p = lay(a)
         nbits = 8 * len(p)
@@ -385,6 +420,11 @@ def streams(tier, rng):
         if rng.random() < 0.3:
             cases.append((1373, [d]))
     yield "nak_garbage", "verdict", cases
+    # 10. operation histories (harness/props/c06h.py, model Run/DirHist.v)
+    from harness.props import c06h
+    for st in c06h.streams_for(["nak"], tier, rng, "c"):
+        yield st
+    yield "histories_limit_c", "exact", c06h.limit_cases("nak", rng, big)
 
 
 # ------------------------------------------------------------------ oracle
@@ -421,6 +461,9 @@ def _check_decoded(b, ires, what):
 def oracle(case, ires, sres):
     """The property itself, evaluated on the implementation's observable behaviour."""
     op, a = case
+    if op == 1380:
+        from harness.props import c06h
+        return c06h.oracle(case, ires, sres)
     err = ires[0][0] == 1
     code = ires[0][1] if err else None
     if op == 1371:
